@@ -315,9 +315,9 @@ class DeepInliner(Inliner):
                 s.iter = _loc(ast.Name(id=name, ctx=ast.Load()), it)
                 return [_loc(ast.Assign(targets=[ast.Name(id=name, ctx=ast.Store())], value=it), it), s]
             return [s]
-        if not isinstance(s, (ast.Expr, ast.Assign, ast.AnnAssign, ast.Return, ast.AugAssign)):
+        if not isinstance(s, (ast.Expr, ast.Assign, ast.AnnAssign, ast.Return, ast.AugAssign, ast.If)):
             return [s]
-        root = s.value
+        root = s.test if isinstance(s, ast.If) else s.value
         if root is None:
             return [s]
         pre: list[ast.stmt] = []
@@ -326,7 +326,7 @@ class DeepInliner(Inliner):
         def top_level(e: ast.AST) -> bool:
             return e is root and isinstance(s, (ast.Assign, ast.AnnAssign, ast.Return, ast.Expr)) and not (isinstance(s, ast.Expr) and isinstance(e, ast.DictComp))
 
-        def visit(e: ast.AST) -> ast.AST:
+        def visit(e: ast.AST, via: ast.AST | None = None) -> ast.AST:
             # conditional evaluation contexts are left alone
             if isinstance(e, (ast.Lambda, ast.IfExp, ast.BoolOp, ast.ListComp, ast.SetComp, ast.GeneratorExp, ast.DictComp)) and not (isinstance(e, ast.DictComp)):
                 return e
@@ -338,9 +338,11 @@ class DeepInliner(Inliner):
                 return _loc(ast.Name(id=name, ctx=ast.Load()), e)
             for fld, val in ast.iter_fields(e):
                 if isinstance(val, ast.AST):
-                    setattr(e, fld, visit(val))
+                    setattr(e, fld, visit(val, e))
                 elif isinstance(val, list):
-                    setattr(e, fld, [visit(x) if isinstance(x, ast.AST) else x for x in val])
+                    setattr(e, fld, [visit(x, e) if isinstance(x, ast.AST) else x for x in val])
+            if isinstance(s, ast.If) and not isinstance(via, (ast.NamedExpr, ast.Compare)):
+                return e  # a predicate used for its truth value: summarised inside guard formulas (core/inline.py), not flattened
             if isinstance(e, ast.Call) and not top_level(e) and outer._inlinable_call(ctx, e, stack) and not outer._expression_helper(ctx, e):
                 callee = outer._resolve(ctx, e)
                 name = outer._fresh_tmp(f"value__{callee.name.strip('_')}", taken)
@@ -348,7 +350,10 @@ class DeepInliner(Inliner):
                 return _loc(ast.Name(id=name, ctx=ast.Load()), e)
             return e
 
-        s.value = visit(root)
+        if isinstance(s, ast.If):
+            s.test = visit(root)
+        else:
+            s.value = visit(root)
         return pre + [s]
 
     def _expression_helper(self, ctx: FuncInfo, call: ast.Call) -> bool:
